@@ -309,6 +309,27 @@ class CFG:
                     out.append((n.ast, test, lab == "T"))
         return out
 
+    def atoms_at(self, targets):
+        """like conditions_at, decomposed into atomic facts [(if/while node, atom expr, polarity)]: a true conjunction
+        makes each conjunct true, a false disjunction each disjunct false, `not x` true is x false. Independent of how
+        the guards are spelled (nested ifs, `and`, early returns, merged `or` guards)."""
+        out = []
+        for (node, test, pol) in self.conditions_at(targets):
+            if isinstance(node, (ast.For, ast.AsyncFor)):
+                continue
+            for atom, p in _atoms(test, pol):
+                while isinstance(atom, ast.UnaryOp) and isinstance(atom.op, ast.Not):
+                    atom, p = atom.operand, not p
+                if isinstance(atom, ast.Compare) and len(atom.ops) == 1 and type(atom.ops[0]) in _POS_OP:
+                    atom = ast.copy_location(ast.Compare(left=atom.left, ops=[_POS_OP[type(atom.ops[0])]()], comparators=atom.comparators), atom)
+                    p = not p
+                out.append((node, atom, p))
+        return out
+
+    def fact_set(self, targets):
+        from .core import unparse
+        return {(unparse(a, 400), p) for (_, a, p) in self.atoms_at(targets)}
+
     def assume_edges(self, pred):
         """Edges to drop when the tests satisfying `pred(test expr)` are
         assumed: pred returns True/False (the assumed truth value) or None."""
@@ -329,6 +350,25 @@ class CFG:
 
     def stats(self):
         return len(self.nodes), sum(len(n.succ) for n in self.nodes)
+
+
+_POS_OP = {ast.NotEq: ast.Eq, ast.IsNot: ast.Is, ast.NotIn: ast.In}
+
+
+def _atoms(test, pol):
+    """facts implied by `test` being `pol`: a true conjunction makes each conjunct true, a false disjunction each
+    disjunct false, `not (a or b)` true is a false disjunction (a bare `not x` stays whole)"""
+    t = test
+    if isinstance(t, ast.UnaryOp) and isinstance(t.op, ast.Not) and isinstance(t.operand, ast.BoolOp):
+        for x in _atoms(t.operand, not pol):
+            yield x
+        return
+    if isinstance(t, ast.BoolOp) and ((isinstance(t.op, ast.And) and pol) or (isinstance(t.op, ast.Or) and not pol)):
+        for v in t.values:
+            for x in _atoms(v, pol):
+                yield x
+        return
+    yield t, pol
 
 
 _cache = {}
